@@ -91,6 +91,8 @@ func main() {
 	inits := flag.String("init", "", "extra comma-separated packages whose init is run")
 	cross := flag.Int("cross", 0, "cross-check this many queries on a second solver")
 	nvalid := flag.Int("validate", 3, "number of completed paths whose model is emitted for native validation")
+	shardF := flag.String("shard", "", "i/n: explore only the i-th of n shards of the path tree")
+	shardDepth := flag.Int("sharddepth", 10, "decision depth at which paths are assigned to shards")
 	tierF := flag.String("tier", "quick", "quick or thorough (visible to harnesses as vTier())")
 	regionsF := flag.String("regions", "", "comma-separated open known-finding regions")
 	flag.BoolVar(&verbose, "v", false, "verbose")
@@ -229,6 +231,10 @@ func main() {
 		ex2.maxPaths = *maxPaths
 		ex2.deadline = time.Now().Add(*timeout)
 		ex2.wantValidation = *nvalid
+		if *shardF != "" {
+			fmt.Sscanf(*shardF, "%d/%d", &ex2.shardI, &ex2.shardN)
+			ex2.shardDepth = *shardDepth
+		}
 		theEx = ex2
 		i.funcsEntered = map[*ssa.Function]int{}
 		for k := range usedIntrinsics {
